@@ -1,1 +1,2 @@
+import OtelVerif.Props.C06
 import OtelVerif.Props.C09
